@@ -66,3 +66,80 @@ exception Bad_case of str
 
 let s2l_ascii (s : str) : n list =
   List.init (String.length s) (fun i -> n_of_int (Char.code s.[i]))
+
+(* ---- values, code maps, errors: the same canonical encodings as harness/src/common.rs ---- *)
+let rec enc_value (b : Buffer.t) (v : value) : unit =
+  match v with
+  | VNull -> Buffer.add_char b 'n'
+  | VBool true -> Buffer.add_char b 't'
+  | VBool false -> Buffer.add_char b 'f'
+  | VNum s -> Buffer.add_char b '#'; Buffer.add_string b (tok_of_cps s)
+  | VStr s -> Buffer.add_char b '$'; Buffer.add_string b (tok_of_cps s)
+  | VArr l ->
+    Buffer.add_char b '[';
+    List.iter (fun x -> Buffer.add_char b ' '; enc_value b x) l;
+    Buffer.add_string b " ]"
+  | VObj l ->
+    Buffer.add_char b '{';
+    List.iter (fun (k, x) ->
+        Buffer.add_string b " $"; Buffer.add_string b (tok_of_cps k);
+        Buffer.add_char b ' '; enc_value b x) l;
+    Buffer.add_string b " }"
+
+let value_str (v : value) : str =
+  let b = Buffer.create 64 in enc_value b v; Buffer.contents b
+
+let rec dec_value (t : str list) : value * str list =
+  match t with
+  | "n" :: r -> (VNull, r)
+  | "t" :: r -> (VBool true, r)
+  | "f" :: r -> (VBool false, r)
+  | "[" :: r ->
+    let rec items acc r =
+      match r with
+      | "]" :: r' -> (VArr (List.rev acc), r')
+      | _ -> let (v, r') = dec_value r in items (v :: acc) r'
+    in items [] r
+  | "{" :: r ->
+    let rec ents acc r =
+      match r with
+      | "}" :: r' -> (VObj (List.rev acc), r')
+      | k :: r1 ->
+        let key = cps_of_tok (Stdlib.String.sub k 1 (Stdlib.String.length k - 1)) in
+        let (v, r') = dec_value r1 in ents ((key, v) :: acc) r'
+      | [] -> raise (Bad_case "object")
+    in ents [] r
+  | x :: r when Stdlib.String.length x > 0 && x.[0] = '#' ->
+    (VNum (cps_of_tok (Stdlib.String.sub x 1 (Stdlib.String.length x - 1))), r)
+  | x :: r when Stdlib.String.length x > 0 && x.[0] = '$' ->
+    (VStr (cps_of_tok (Stdlib.String.sub x 1 (Stdlib.String.length x - 1))), r)
+  | _ -> raise (Bad_case "value")
+
+let sn (x : n) : str = string_of_int (int_of_n x)
+
+let codemap_str (cm : ((n * n) * n) list) : str =
+  match cm with
+  | [] -> "-"
+  | _ -> Stdlib.String.concat " " (List.map (fun ((s, e), v) -> sn s ^ "-" ^ sn e ^ "-" ^ sn v) cm)
+
+let hx (x : n) : str = Printf.sprintf "%x" (int_of_n x)
+
+let error_str (e : perr) : str =
+  match e with
+  | EStream p -> "ST " ^ sn p
+  | EUnexpected (p, None) -> "U " ^ sn p ^ " -"
+  | EUnexpected (p, Some c) -> "U " ^ sn p ^ " " ^ hx c
+  | EInvalidCodePoint (s, e, c) -> Printf.sprintf "IC %s %s %s" (sn s) (sn e) (hx c)
+  | EMissingLow (s, e, h) -> Printf.sprintf "ML %s %s %s" (sn s) (sn e) (hx h)
+  | EInvalidLow (s, e, h, c) -> Printf.sprintf "IL %s %s %s %s" (sn s) (sn e) (hx h) (hx c)
+  | EInvalidUtf8 p -> "IU " ^ sn p
+
+(* Error::position / Error::span *)
+let error_pos_span (e : perr) : str =
+  match e with
+  | EStream p | EUnexpected (p, _) | EInvalidUtf8 p -> Printf.sprintf "P%s S%s-%s" (sn p) (sn p) (sn p)
+  | EInvalidCodePoint (s, e, _) | EMissingLow (s, e, _) | EInvalidLow (s, e, _, _) ->
+    Printf.sprintf "P%s S%s-%s" (sn s) (sn s) (sn e)
+
+let opts_of_tok (t : str) : opts =
+  let o = int_of_string t in { trunc = o land 1 <> 0; inval = o land 2 <> 0 }
